@@ -27,7 +27,7 @@ ASSUMPTIONS = ['curve points are compared with 10^model_fluxes mJy x nu in erg/c
                'apertures are generated with >= 2 distinct values so that "smallest" and "largest" differ',
                'aperture radii are kept below the largest tabulated aperture by >= 2 % (the 0.999 clamp of interpolate_variable is outside the statement)']
 PROBES = ['mode_interp', 'mode_largest', 'mode_largest+smallest', 'mode_all', 'multi_aperture', 'single_aperture', 'channel_path', 'channel_obj',
-          'consumer_before_plot', 'plot_memmap_off', 'f4_storage', 'fewer_models_than_requested', 'best_fit_last_checked', 'wavelengths_in_other_unit', 'prelude_epoch', 'filters_not_in_wavelength_order']
+          'consumer_before_plot', 'plot_memmap_off', 'f4_storage', 'fewer_models_than_requested', 'best_fit_last_checked', 'wavelengths_in_other_unit', 'prelude_epoch', 'filters_not_in_wavelength_order', 'aperture_beyond_table_judged']
 
 
 def budgets(tier):
@@ -45,7 +45,9 @@ def generate(rng, tier, idx):
           'dmin': float('%.4g' % (10 ** rng.uniform(-1, 0.3))), 'dspan': float('%.4g' % (10 ** rng.uniform(0, 0.3))),
           'n_theta': rng.randint(2, 3),
           # the unit in which the user gives the monochromatic wavelengths (any length unit is legal)
-          'wav_unit': rng.choice(['micron', 'micron', 'Angstrom', 'nm', 'mm', 'cm', 'm'])}
+          'wav_unit': rng.choice(['micron', 'micron', 'Angstrom', 'nm', 'mm', 'cm', 'm']),
+          # apertures that, at the fitted distance, reach beyond the largest tabulated aperture (the fitter then uses the largest one)
+          'beyond': rng.random() < 0.3}
     steps = []
     for _ in range(rng.randint(1, 4)):
         steps.append({'op': 'plot', 'mode': rng.choice(MODES), 'nsel': rng.randint(1, 5), 'channel': rng.choice(['path', 'obj']),
@@ -117,7 +119,7 @@ def _execute(sc, sim, out):
         dmin = sc['dmin']
         dmax = dmin * sc['dspan']
         lo_t = W.aps[0] * 1.02 / (dmin * 1000.)
-        hi_t = W.aps[-1] * 0.98 / (dmax * 1000.)
+        hi_t = W.aps[-1] * (2.5 if sc.get('beyond') else 0.98) / (dmax * 1000.)
         if lo_t >= hi_t:
             out.discarded = 'aperture-range-too-narrow'
             return
@@ -152,6 +154,7 @@ def _execute(sc, sim, out):
         return
     info = r[1]
     mf = np.asarray(getattr(info.model_fluxes, 'value', info.model_fluxes), float).copy()
+    scl = np.asarray(getattr(info.sc, 'value', info.sc), float).copy()
     if not np.all(np.isfinite(mf)):
         out.discarded = 'non-finite-prediction'
         return
@@ -208,6 +211,14 @@ def _execute(sc, sim, out):
             pred = 10. ** mf[fit_i] * 1e-26 * nu
             for a in shown:
                 js = [j for j in range(nf) if a is None or theta[j] == a]
+                if a is None and apdep:
+                    # the composite curve clamps at 0.999 x the largest aperture (outside the statement): points whose
+                    # aperture reaches beyond the table are judged in the other display modes, where the clamp is exact
+                    js = [j for j in js if theta[j] * 10. ** scl[fit_i] * 1000. <= W.aps[-1] * 0.98]
+                    if len(js) < nf:
+                        out.probe('aperture_beyond_table_skipped_in_interp')
+                elif apdep and any(theta[j] * 10. ** scl[fit_i] * 1000. > W.aps[-1] for j in js):
+                    out.probe('aperture_beyond_table_judged')
                 why = None
                 for sg in block:
                     ok = True
